@@ -3,57 +3,77 @@
   straight-line part of the scalar fragment (`batch_preserves_straight_line_semantics_partial`).
 
   The full statement of the property quantifies over all accepted programs of the scalar, function, slice and
-  string fragments.  Proved here, for ALL programs made of definitions and assignments of one variable, `print`
+  string fragments.  Proved here, for ALL programs made of definitions and assignments (of one variable or simultaneous, through the temporaries `_ma<i>`), `print`
   and a final `panic`, over ALL integer / boolean / string expressions of the scalar fragment (every nesting,
   every number of statements): the lines the Batch converter emits for the program, executed by the cmd model
   `Sem/Cmd` (run-time `!name!` expansion, 32-bit `set /A`, numeric versus string `IF`, the echo routine, `goto :end`
   with the exit code in `_e`), print what the 32-bit source semantics `Sem/Src32` prints and end the same way.
   NOT proved (the name says partial): control flow (if / else-if / else, loops, break, continue - their lines are
   labels, jumps and parenthesised blocks, which `Sem/Cmd` executes with a program counter; model and reference are
-  compared on such programs in every run, see lib/props/c05.py), simultaneous assignment, functions, slices,
+  compared on such programs in every run, see lib/props/c05.py), functions, slices,
   string operations.  What a theorem cannot reach - that cmd.exe reads the rendered text as the structured lines and
   executes them as `Sem/Cmd` says - is decided in every run against lib/cmdsim.py, which works on the text.
 -/
-import TshVerif.Lemmas.SemBStmt
+import TshVerif.Lemmas.SemBAssign
 import TshVerif.Sem.CmdFrag
 namespace Tsh.C05S
 open Tsh Tsh.Tr Tsh.Batch Tsh.Sem Tsh.SemB
 
+theorem assign_src {vars : List Var} {vals : List Expr} (hlen : vars.length = vals.length) (f : Nat) (mk : List Var → List Expr → Stmt)
+    (hmk : ∀ c, Src32.execStmt (f + 1) (mk vars vals) c =
+      (if vars.length == vals.length then
+        match Src32.evalList c.env vals with
+        | some vs => some (.normal, { c with env := Src.storeAll c.env vars vs })
+        | none => none
+      else none)) :
+    ∀ c o c', Src32.execStmt (f + 1) (mk vars vals) c = some (o, c') →
+      ∃ vs, Src32.evalList c.env vals = some vs ∧ o = .normal ∧ c' = { c with env := Src.storeAll c.env vars vs } := by
+  intro c o c' hc
+  rw [hmk] at hc
+  simp only [hlen, beq_self_eq_true, if_true] at hc
+  split at hc
+  · rename_i vs hvs
+    simp only [Option.some.injEq, Prod.mk.injEq] at hc
+    obtain ⟨rfl, rfl⟩ := hc
+    exact ⟨vs, hvs, rfl, rfl⟩
+  · simp at hc
+
+theorem assignAny_sem {vars : List Var} {vals : List Expr} (hlen : vars.length = vals.length) (hne : vars ≠ [])
+    (hg : (vars.all (fun x => goodName x.name)) = true) {s s' : St} (h0 : s.funcs = [])
+    (h : assignValues conv vars vals s = .ok ((), s')) (src : Src.SCfg → Option (Out × Src.SCfg))
+    (hsrc : ∀ c o c', src c = some (o, c') →
+      ∃ vs, Src32.evalList c.env vals = some vs ∧ o = .normal ∧ c' = { c with env := Src.storeAll c.env vars vs }) :
+    StmtSemB src s s' := by
+  by_cases hc : vars.length > 1
+  · exact assignNB_sem hlen hc hg h0 h src hsrc
+  · match vars, vals, hlen, hne, hc with
+    | [x], [e], _, _, _ =>
+      refine assign1B_sem (by simpa using hg) h0 h src ?_
+      intro c o c' hs
+      obtain ⟨vs, hvs, eo, ec⟩ := hsrc c o c' hs
+      simp only [Src32.evalList] at hvs
+      split at hvs
+      · rename_i v vs' hv hnil
+        simp only [Option.some.injEq] at hnil hvs
+        subst hnil; subst hvs
+        exact ⟨v, hv, eo, by rw [ec]; rfl⟩
+      · simp at hvs
+    | [], _, _, hne, _ => exact absurd rfl hne
+    | _ :: _ :: _, _, _, _, hc => simp at hc
+    | [_], [], hlen, _, _ => simp at hlen
+    | [_], _ :: _ :: _, hlen, _, _ => simp at hlen
+
 theorem stmtSemB_of_straight (st : Stmt) (hs : straightStmt st = true) (s s' : St) (h0 : s.funcs = [])
     (h : evalStmt conv st s = .ok ((), s')) (f : Nat) : StmtSemB (fun c => Src32.execStmt (f + 1) st c) s s' := by
   match st, hs with
-  | .varDef [x] [e], hs =>
+  | .varDef vars vals, hs =>
     unfold evalStmt at h
-    refine assign1B_sem (by simpa [straightStmt] using hs) h0 h _ ?_
-    intro c o c' hc
-    simp only [Src32.execStmt, List.length_cons, List.length_nil, beq_self_eq_true, if_true, Src32.evalList] at hc
-    split at hc
-    · rename_i vs hvs
-      split at hvs
-      · rename_i v vs' hv hnil
-        simp only [Option.some.injEq] at hnil hvs
-        subst hnil; subst hvs
-        simp only [Option.some.injEq, Prod.mk.injEq] at hc
-        obtain ⟨rfl, rfl⟩ := hc
-        exact ⟨v, hv, rfl, rfl⟩
-      · simp at hvs
-    · simp at hc
-  | .assign [x] [e], hs =>
+    simp only [straightStmt, Bool.and_eq_true, beq_iff_eq, Bool.not_eq_true', List.isEmpty_eq_false_iff] at hs
+    exact assignAny_sem hs.1.1 hs.1.2 hs.2 h0 h _ (assign_src hs.1.1 f Stmt.varDef (fun c => by simp only [Src32.execStmt]; rfl))
+  | .assign vars vals, hs =>
     unfold evalStmt at h
-    refine assign1B_sem (by simpa [straightStmt] using hs) h0 h _ ?_
-    intro c o c' hc
-    simp only [Src32.execStmt, List.length_cons, List.length_nil, beq_self_eq_true, if_true, Src32.evalList] at hc
-    split at hc
-    · rename_i vs hvs
-      split at hvs
-      · rename_i v vs' hv hnil
-        simp only [Option.some.injEq] at hnil hvs
-        subst hnil; subst hvs
-        simp only [Option.some.injEq, Prod.mk.injEq] at hc
-        obtain ⟨rfl, rfl⟩ := hc
-        exact ⟨v, hv, rfl, rfl⟩
-      · simp at hvs
-    · simp at hc
+    simp only [straightStmt, Bool.and_eq_true, beq_iff_eq, Bool.not_eq_true', List.isEmpty_eq_false_iff] at hs
+    exact assignAny_sem hs.1.1 hs.1.2 hs.2 h0 h _ (assign_src hs.1.1 f Stmt.assign (fun c => by simp only [Src32.execStmt]; rfl))
   | .print es, _ =>
     unfold evalStmt at h
     have := printB_sem h0 h
@@ -73,14 +93,14 @@ theorem straightStmt_normal (st : Stmt) (hs : straightStmt st = true) (f : Nat) 
   | zero => simp [Src32.execStmt] at h
   | succ f =>
     match st, hs with
-    | .varDef [x] [e], _ =>
+    | .varDef vars vals, _ =>
       simp only [Src32.execStmt] at h
       split at h
       · split at h
         · simp only [Option.some.injEq, Prod.mk.injEq] at h; exact h.1.symm
         · simp at h
       · simp at h
-    | .assign [x] [e], _ =>
+    | .assign vars vals, _ =>
       simp only [Src32.execStmt] at h
       split at h
       · split at h
@@ -223,7 +243,7 @@ open Tsh Tsh.Tr Tsh.Batch Tsh.Sem Tsh.SemB
 def startStore : Store := Store.set (fun _ => "") "_e" "0"
 
 /-- **The Batch script means what the program means (straight-line programs).**  For every program `p` made of
-    definitions and assignments of one variable, `print` and a final `panic`: the emitted script is the start code,
+    definitions and assignments (of one variable or simultaneous, through the temporaries `_ma<i>`), `print` and a final `panic`: the emitted script is the start code,
     the helper routines, the lines `code` of the program and the two end lines (no function block), and whenever the
     32-bit source semantics runs `p` to an outcome `o` (end of program, or exit 1 after `panic`) with printed lines `out`,
     the cmd model runs `code` from the store the start code leaves to the same outcome with the same printed lines; at
